@@ -249,7 +249,8 @@ func GenProg(r *Rng, cfg ProgCfg) *Prog {
 				o.Max = r.Range(o.Min, cfg.MaxMulti)
 			}
 			o.Desc = fmt.Sprintf("D%dD", o.ID)
-			if cfg.Env > 0 && r.Intn(100) < cfg.Env && (o.Kind == KBool || o.Kind.IsScalar() || o.Kind.IsOptional()) {
+			// slice, map and increment options can be bound too: GetEnv is documented as a no-op for them
+			if cfg.Env > 0 && r.Intn(100) < cfg.Env && (o.Kind == KBool || o.Kind.IsScalar() || o.Kind.IsOptional() || ((o.Kind.IsMulti() || o.Kind == KIncr) && o.ID%2 == 1)) {
 				o.Env = fmt.Sprintf("VERIF_E%d", o.ID)
 				switch r.Intn(4) {
 				case 0: // unset
@@ -258,6 +259,10 @@ func GenProg(r *Rng, cfg ProgCfg) *Prog {
 				default:
 					o.EnvSet = true
 					switch {
+					case o.Kind == KMap:
+						o.EnvVal = "envk=envv"
+					case o.Kind == KIncr:
+						o.EnvVal = "3"
 					case o.Kind == KBool:
 						o.EnvVal = r.Pick([]string{"true", "false", "TRUE", "False", "tRuE"})
 					case o.Kind.IsInt():
